@@ -16,7 +16,7 @@ META = dict(
           'region one at a time; TLC validates every recorded event against the expectation (TraceContainer.tla).'),
     note=('The spec supplies scenario space and expectation only; byte-level fidelity rests on the independent writers (trusted base). Payload equality is '
           'judged through length + SHA-256 computed by the harness (verbatim bytes up to 64). quick runs every intact scenario and a seed-dependent sixth '
-          'of the corruption scenarios with a stride of flips; thorough runs the whole space with up to 48 flips per region third. fq never computes zip '
+          'of the corruption scenarios with a stride of flips; thorough runs the whole space with up to 16 flips per region third (every byte of regions up to 16 bytes, a stride beyond). fq never computes zip '
           'crc32 or tar chksum: those two are known findings and hide nothing else (members are compared before checksum marks).'),
     technique='TLA+ scenario space and expectation (Container.tla) enumerated by TLC + independent writers + real fq decode + TLC trace validation',
 )
